@@ -6,6 +6,8 @@ C = "crates/compiler/src/typer/check.rs"
 T = "crates/compiler/src/tast.rs"
 R = "crates/compiler/src/typer/results.rs"
 VC = (re.compile(r"\.clone\(\)"), ".vclone()", "*")
+# every push is followed by the (ghost) observation that the pushed constraint is now recorded — the witness for the existential postcondition, wherever the push stands
+PUSHED = (re.compile(r"self\.push_constraint\(((?:[^()]|\((?:[^()]|\([^()]*\))*\))*)\);"), r"{ let __pc = \1; let ghost __pg = __pc; self.push_constraint(__pc); proof { assert(self.recorded().contains(__pg)); } }", "*")
 
 
 def loops(k, header, kw):
@@ -44,10 +46,10 @@ def named_tail(n, pat):
               sig=f"pub fn call_named_tail_{n}(&mut self, call_expr_id: ExprId, func: ExprId, args: &Vec<ExprId>, name: &String, inst_ty: Ty, arg_types: Vec<Ty>, args_tast: Vec<Expr>, "
                   "ret_ty: Ty, astptr: Option<MySyntaxNodePtr>) -> Expr",
               pre_rewrites=[(re.compile(r"self\.results\.record_"), "self.record_", "*"), ("args.to_vec()", "exprids_to_vec(args)", "*")],
-              rewrites=[VC],
+              rewrites=[VC, PUSHED],
               obligation="a call by name: the callee's instantiated type is equated with (types of the elaborated arguments) -> (the call's type); the call carries these "
                          "arguments, that callee type and that result type",
-              contract="ensures named_tail_ok(r, inst_ty, arg_types@, args_tast@, ret_ty, final(self).constraints()),")
+              contract="ensures named_tail_ok(r, inst_ty, arg_types@, args_tast@, ret_ty, final(self).recorded()),")
 
 
 UNIT = Unit(
@@ -75,7 +77,7 @@ UNIT = Unit(
         Adt(file=R, kw="struct", name="CallElab", rules=["attrs", ("strip", "tast::"), ("strip", "hir::")]),
         Adt(file=R, kw="enum", name="CalleeElab", rules=["attrs", ("strip", "tast::"), ("strip", "hir::")]),
         Raw(path="contracts/localcall.shim.rs"),
-        Fn(file=T, name="get_ty", container="Expr", ret="r", rewrites=[VC],
+        Fn(file=T, name="get_ty", container="Expr", ret="r", rewrites=[VC, PUSHED],
            contract="ensures r == expr_ty(*self),", obligation="get_ty returns the carried type"),
         Fn(file=C, name="infer_call_expr", container="Typer", as_method_of="Typer", rename="call_local", ret="r", attrs="#[verifier::loop_isolation(false)]",
            cut_from=re.compile(r"hir::Expr::ENameRef \{\s*res: hir::NameRef::Local\(name\),\s*astptr: func_astptr,\s*\.\.\s*\} => \{"), cut_inside=True, cut_before="@block-end", cut_tail="",
@@ -84,9 +86,9 @@ UNIT = Unit(
            pre_rewrites=[("self.hir_table.local_ident_name(name)", "self.local_ident_name(name)", "*"), (re.compile(r"self\.results\.record_"), "self.record_", "*"),
                          ("args.to_vec()", "exprids_to_vec(args)", "*"),
                          ("let mut args_tast = Vec::new();", "let mut args_tast: Vec<Expr> = Vec::new();", "*"), ("let mut arg_types = Vec::new();", "let mut arg_types: Vec<Ty> = Vec::new();", "*")],
-           rewrites=[VC],
+           rewrites=[VC, PUSHED],
            obligation="the callee's type is equated with (argument types) -> (the call's type); arguments elaborated once, in order",
-           contract="ensures local_call_ok(args@, r, final(self).constraints()),",
+           contract="ensures local_call_ok(args@, r, final(self).recorded()),",
            loop_fn=loops),
         Fn(file=C, name="infer_call_expr", container="Typer", as_method_of="Typer", rename="call_named_args", ret="r", attrs="#[verifier::loop_isolation(false)]",
            rules=["attrs", "fmtmsg", ("strip", "tast::"), ("strip", "hir::"), ("strip", "super::util::"), "for_zip", "for_index", "let_chain_rev", "let_chain"],
@@ -95,7 +97,7 @@ UNIT = Unit(
            sig="pub fn call_named_args(&mut self, genv: &PackageTypeEnv, local_env: &mut LocalTypeEnv, diagnostics: &mut Diagnostics, args: &Vec<ExprId>, hint: String) -> Option<(Ty, Vec<Expr>, Vec<Ty>)>",
            pre_rewrites=[("let mut args_tast = Vec::new();", "let mut args_tast: Vec<Expr> = Vec::new();", "*"), ("let mut arg_types = Vec::new();", "let mut arg_types: Vec<Ty> = Vec::new();", "*"),
                          ("!params.is_empty()", "params.len() > 0", "*")],
-           rewrites=[VC],
+           rewrites=[VC, PUSHED],
            obligation="a call by name: when the callee's parameter list fits the call, every argument is checked against its parameter's type, in order; the callee's type is an instance of the declared scheme",
            contract="ensures named_args_ok(*genv, hint@, args@, r),",
            loop_fn=named_loops),
@@ -106,9 +108,9 @@ UNIT = Unit(
            sig="pub fn call_expr_tail(&mut self, genv: &PackageTypeEnv, local_env: &mut LocalTypeEnv, diagnostics: &mut Diagnostics, call_expr_id: ExprId, func: ExprId, args: &Vec<ExprId>, "
                "arg_types: Vec<Ty>, args_tast: Vec<Expr>, ret_ty: Ty) -> Expr",
            pre_rewrites=[(re.compile(r"self\.results\.record_"), "self.record_", "*"), ("args.to_vec()", "exprids_to_vec(args)", "*")],
-           rewrites=[VC],
+           rewrites=[VC, PUSHED],
            obligation="a call whose callee is an arbitrary expression: the type of the elaborated callee is equated with (types of the elaborated arguments) -> (the call's type)",
            contract="ensures r matches Expr::ECall { func: f, args: a, ty } && a@ == args_tast@ && ty == ret_ty && inferred(func, *f) "
-                    "&& named_tail_ok(r, expr_ty(*f), arg_types@, args_tast@, ret_ty, final(self).constraints()),"),
+                    "&& named_tail_ok(r, expr_ty(*f), arg_types@, args_tast@, ret_ty, final(self).recorded()),"),
     ],
 )
